@@ -211,7 +211,7 @@ def apply_settings(problem, cfg):
     problem.optimization_stagnation_tolerance = cfg.get("stagnation")
 
 
-ENTRY = {"resolve": "(EResolve true)", "resolve_nofinal": "(EResolve false)", "optimize": "EOptimize",
+ENTRY = {"resolve": "(EResolve true)", "resolve_filter": "(EResolve true)", "resolve_nofinal": "(EResolve false)", "optimize": "EOptimize",
          "resolve_exhaustive": "EResolveExhaustive", "resolve_random": "EResolveRandom",
          "optimize_exhaustive": "EOptimizeExhaustive", "optimize_random": "EOptimizeRandom"}
 
@@ -221,6 +221,11 @@ def run_entry(problem, entry):
         problem.resolve_constraints()
     elif entry == "resolve_nofinal":
         problem.resolve_constraints(final_check=False)
+    elif entry == "resolve_filter":
+        # the rarely used cst_filter parameter: every constraint but the last one is resolved (the
+        # final check still concerns all of them)
+        last = problem.constraints[-1] if problem.constraints else None
+        problem.resolve_constraints(cst_filter=lambda c: c is not last)
     elif entry == "optimize":
         problem.optimize()
     elif entry == "resolve_exhaustive":
